@@ -117,7 +117,8 @@ def explore_mpz(mod, name, build_args, maxpaths=64):
         ctx.symbolic_canon = True
         summ, _ = contracts.wrapper_summaries(mod, ctx)
         summ.update(mpzmodel.summaries(W))
-        I = Interp(mod, summ, {'summ_re': [(r, mpzmodel.noop) for r in mpzmodel.NOOP_RE], 'decide': mpzmodel.decide_hook(W), 'symbolic_trunc': mpzmodel.trunc_hook(W)})
+        I = Interp(mod, summ, {'summ_re': [(r, mpzmodel.noop) for r in mpzmodel.NOOP_RE], 'decide': mpzmodel.decide_hook(W), 'symbolic_trunc': mpzmodel.trunc_hook(W),
+                              'symbolic_binop': mpzmodel.binop_hook(W)})
         W.interp = I
         args, regs = build_args(I, W)
         try:
